@@ -44,7 +44,7 @@ TABLE = [
 
 def gen(chk, mpmath, rng):
     mp = mpmath.mp
-    for item in sf.samereal(chk, mpmath, rng, TABLE, 8, chk.pick(200, 9000), PROP):
+    for item in sf.samereal(chk, mpmath, rng, TABLE, 8, chk.pick(200, 9000), PROP, hiprec=0.08):
         yield item
     for i in range(chk.pick(150, 5000)):
         p = rng.choice([30, 53, 53, 100, 200]); mp.prec = p
@@ -54,7 +54,7 @@ def gen(chk, mpmath, rng):
                 a = sf.rq(rng, -3, 3); q = Fr(rng.randint(-50, 50), 64); n = rng.randint(0, 12)
                 exact = ex.prodk(0, n - 1, ex.sub(1, ex.mul(ex.Qf(a), ex.powk(ex.Qf(q))))) if False else \
                     ex.mul(*([ex.sub(1, ex.mul(ex.Qf(a), ex.powi(ex.Qf(q), k))) for k in range(n)] or [1]))
-                yield ex.relabs_close(mp.qp(sf.q2m(mp, a), sf.q2m(mp, q), n), exact, 8, p), {"key": "exact/qp-finite", "a": str(a), "q": str(q), "n": n, "p": p, "what": "finite q-Pochhammer product differs from the exact rational"}
+                yield ex.rel0_close(mp.qp(sf.q2m(mp, a), sf.q2m(mp, q), n), exact, 8, p), {"key": "exact/qp-finite", "a": str(a), "q": str(q), "n": n, "p": p, "what": "finite q-Pochhammer product differs from the exact rational"}
             elif c < 0.45:
                 x, y = sf.posq(rng, 9), sf.posq(rng, 9); X, Y = sf.q2m(mp, x), sf.q2m(mp, y)
                 g = mp.agm(X, Y)
